@@ -180,6 +180,11 @@ func init() {
 				jobs = append(jobs, Job{Pkg: "fastlog", Func: "VerifC20IP4", Args: []int64{pos}, Cfg: fl(64, 600), Reach: r})
 			}
 			if tier == "thorough" {
+				jobs = append(jobs, Job{Pkg: "fastlog", Func: "VerifC20Int", Args: []int64{0, 24}, SplitN: 22, Cfg: fl(64, 1500), Reach: r})
+			} else {
+				jobs = append(jobs, Job{Pkg: "fastlog", Func: "VerifC20Int", Args: []int64{0, 12}, SplitN: 22, Cfg: fl(64, 600), Reach: r})
+			}
+			if tier == "thorough" {
 				jobs = append(jobs, Job{Pkg: "fastlog", Func: "VerifC20IP6Digits", Args: []int64{256}, SplitN: 256, Cfg: fl(64, 900)})
 				jobs = append(jobs, Job{Pkg: "fastlog", Func: "VerifC20ByteArray", Args: []int64{400}, Cfg: fl(700, 1500), Reach: r})
 			} else {
@@ -190,6 +195,7 @@ func init() {
 		},
 		Bounds: func(tier string) map[string]string {
 			b := map[string]string{
+				"Int":              "every value in a window of 12 (quick) / 24 (thorough) values around 0, +-2^16, +-2^31, +-2^32, +-2^48, +-10, +-10^3, +-10^9, +-10^10, +-10^18 and at the two ends of the int64 range; all int64 values at once measured and not decided in 150 s (not claimed)",
 				"scalar appenders": "Bool, Uint8Hex, Uint16Hex, Uint8/16/32 (all values), String/Bytes/Label (values 0..5 bytes, all contents), Msg, three-field concatenation; field names of 0, 1 and 4 arbitrary bytes; cursor at any position that leaves room; arbitrary old buffer contents",
 				"MAC":              "each of the 6 positions takes all 256 values (others fixed); all lengths != 6 up to 8 render nil",
 				"IPv6 (IPSlice)":   "all 256 zero/non-zero group layouts with constant non-zero groups; digit classes: one free group (all 65535 non-zero values) at every position for 16 layouts (quick) / all 256 layouts (thorough)",
@@ -584,7 +590,7 @@ func init() {
 				"ICMP4SendEchoRequest":                "every source/destination IPv4 address, destination MAC, id, seq; IPv4 header and ICMP checksums verified directly under the big-endian reference sum",
 				"ICMP6SendEchoRequest":                "every source/destination IPv6 address, destination MAC, id, seq",
 				"ICMP6SendNeighborAdvertisement / ICMP6SendNeighbourSolicitation": "every link-local source/destination/target, target MAC; NS destination = solicited-node multicast of the target",
-				"ICMP6SendRouterSolicitation / ICMP6SendRouterAdvertisement":      "arbitrary host LLA; RA with one arbitrary prefix (any length 0..128) and an optional RDNSS server, DNSSL \"lan\", MTU, source LLA",
+				"ICMP6SendRouterSolicitation / ICMP6SendRouterAdvertisement":      "arbitrary host LLA; RA with one or two arbitrary prefixes (any lengths 0..128, each option must carry its own prefix, in order) and an optional RDNSS server, DNSSL \"lan\", MTU, source LLA",
 				"ARP handler":                         "RequestRaw, Reply, Request, RequestTo, Probe, AnnounceTo with every destination MAC, sender and target (MAC, IPv4); plus every frame emitted along the C13 harnesses (spoof replies, probe rejects, spoof-loop announcements and the corrective request)",
 				"NIC configuration":                   "symbolic host and router MAC, host link-local address; home LAN 192.168.0.0/24",
 				"ICMPv6 handler":                      "every forged / corrective neighbour advertisement emitted along the C14 spoof-loop harnesses",
@@ -732,6 +738,15 @@ func icmp6Jobs(tier string) []Job {
 	for sel := int64(0); sel < 32; sel++ {
 		jobs = append(jobs, Job{Pkg: "handlers/icmp_spoofer", Func: "VerifC14RA", Args: []int64{sel}, Cfg: c, Reach: r})
 	}
+	// options longer than 255 bytes (unknown type with 32 units first; RDNSS with 16 servers = 33 units): alone, between prefix / MTU and source LLA, and
+	// followed by a DNS search list
+	for _, sel := range []int64{64, 64 + 1 + 2 + 4 + 8, 32 + 4, 32 + 4 + 1 + 8, 32 + 4 + 2 + 8 + 16} {
+		// (8 s on the unchanged tree; a parser that mis-steps into 264 arbitrary bytes explodes, hence the small budget:
+		// exhausting it is reported as inconclusive, never as success)
+		cl := c
+		cl.MaxWall = 90
+		jobs = append(jobs, Job{Pkg: "handlers/icmp_spoofer", Func: "VerifC14RA", Args: []int64{sel}, Cfg: cl, Reach: r})
+	}
 	return jobs
 }
 
@@ -745,7 +760,7 @@ func init() {
 			return map[string]string{
 				"hunt ops":        "hunt lists of 0..3 arbitrary (MAC, link-local) entries; StartHunt with IPv4, arbitrary non-link-local IPv6, link-local and address-less targets for an arbitrary (possibly already hunted) MAC; StopHunt of any MAC incl. the middle element",
 				"spoof loop":      "one hunted host (+ 0..1 others), 0..2 (thorough 0..3) learned routers with arbitrary link-local addresses; StopHunt or Close after 0, 1 or 2 (thorough 0..4) iterations (delivered between iterations); every frame is checked (NA, override, target = learned router, target LLA = our MAC, hop limit 255, destination = the hunted MAC)",
-				"router learning": "router advertisements through the real Parse with every header field symbolic and every subset of {prefix information, MTU, RDNSS with one server, source LLA, DNS search list with one single-label name of 1..7 letters (all padding lengths)} with all other option values symbolic: flags, preference, hop limit, lifetimes, timers, prefix, MTU, RDNSS and source LLA in the router table equal an independent decoder's reading",
+				"router learning": "router advertisements through the real Parse with every header field symbolic and every subset of {prefix information, MTU, RDNSS with one server, source LLA, DNS search list with one single-label name of 1..7 letters (all padding lengths)}, plus five lists with an option longer than 255 bytes (an unknown option of 32 units = 256 bytes in front; an RDNSS option of 16 servers = 264 bytes), with all other option values symbolic: flags, preference, hop limit, lifetimes, timers, prefix, MTU, RDNSS and source LLA in the router table equal an independent decoder's reading",
 			}
 		},
 		Assumptions: []string{
